@@ -70,6 +70,18 @@ Proof.
   - apply (lookups_in_range site_alt_opcode site_alt_opcode_in). exact H.
 Qed.
 
+(* emit_mm_and_opcode: the mm field of every opcode a non-VEX, non-x87 instruction row can hand to the legacy emit tails *)
+Lemma opcode_mm_lookup : forall o, In o x86_legacy_opcodes ->
+  exists v, lookup x86_opcode_mm_table (Z.land (Z.shiftr o x86c_mm_shift) x86c_mm_index_max) = Some v.
+Proof.
+  intros o H. apply (lookups_in_range site_opcode_mm site_opcode_mm_in). cbn [site_idx site_opcode_mm].
+  apply in_map_iff. exists o. split; [reflexivity | exact H].
+Qed.
+
+(* ... while the 5-bit mm field as such (kMM_ForceEvex set, as in EVEX-only rows) would leave the 16-entry table *)
+Lemma opcode_mm_field_refuted : exists m, 0 <= m <= x86c_mm_index_max /\ lookup x86_opcode_mm_table m = None.
+Proof. exists 16. split; [vm_compute; split; discriminate | reflexivity]. Qed.
+
 Lemma common_hi_lookup : forall t, 0 <= t <= a64c_reg_type_max -> exists v, lookup a64_common_hi_reg_id_of_type_table t = Some v.
 Proof.
   intros t H. apply (lookups_in_range site_common_hi site_common_hi_in). cbn [site_idx site_common_hi]. apply in_upto. exact H.
